@@ -10,6 +10,7 @@ import Dsi.Impl.Copy
 import Dsi.Impl.BitReader
 import Dsi.Spec
 import Dsi.Glue.Wrappers
+import Dsi.Impl.Teardown
 namespace Dsi
 
 /-! ### text helpers -/
@@ -155,15 +156,13 @@ def sessStep {ω ρ} (M : Mach ω ρ) (s : Sess ω ρ) (op : List String) : Stri
     | none => bad
   | ["wd"] => (bytesHex (M.dump s.w), some s)
   | ["wdrop"] =>      -- Drop flushes (and unwraps the result: an error there would be a panic)
-    match M.wi.flush s.w with
-    | .ok (_, w') => (bytesHex (M.dump w'), some { s with w := M.newWriter })
-    | .err _ => ("P", none)
+    match M.wi.dropW s.w with          -- lean/Dsi/Impl/Teardown.lean
+    | .ok w' => (bytesHex (M.dump w'), some { s with w := M.newWriter })
     | r => (showRes (fun _ => "") r, none)
   | ["winto"] =>      -- into_inner flushes and returns the backend; when that flush fails the writer
                       -- is dropped on the error path, and Drop flushes again and unwraps: a panic
-    match M.wi.flush s.w with
-    | .ok (_, w') => (bytesHex (M.dump w'), some { s with w := M.newWriter })
-    | .err _ => ("P", none)
+    match M.wi.intoInnerW s.w with     -- lean/Dsi/Impl/Teardown.lean
+    | .ok w' => (bytesHex (M.dump w'), some { s with w := M.newWriter })
     | r => (showRes (fun _ => "") r, none)
   | ["rb", n] =>
     match num? n with
